@@ -25,6 +25,7 @@ import QV.Lemmas.DataLoad
 import QV.Model.Unitaries
 
 namespace QV.Props
+namespace C19
 open QV QV.DataLoad Finset
 
 /-! ## Part 1 — indexing -/
@@ -467,4 +468,5 @@ example : extractRefbasis (.mat [[1, 0], [0, 1], [1, 1], [0, 0]])
     (.mat [[['Z'], ['Z']], [['X'], ['Z']], [['Z'], ['Z']], [['Z', 'Z'], ['Z']]])
     = .ok (.mat [[1, 0], [1, 1]]) := by decide
 
+end C19
 end QV.Props
